@@ -82,6 +82,12 @@ class GenDyn(Gen):
             tgt = rng.choice([["sp", ["P"], [], ""], ["ce", ["P"], [], "x"], ["sp", ["P", "C"], [], ""]])
             mir["refs"][("P", "C")]["oc"] = {"v": tgt, "mode": rng.choice(["auto", "relative", "absolute"])}
         self.refkind["oc"] = "obj"
+        if self.nested and rng.random() < 0.5:
+            # a reference of the NESTED parametrised space pointing at a sibling / a cells of the
+            # outer tree: in P[i].Q[k] it denotes the object of the enclosing instance P[i]
+            tgt = rng.choice([["sp", ["P", "C"], [], ""], ["ce", ["P"], [], "x"]])
+            mir["refs"][("P", "Q")]["oq"] = {"v": tgt, "mode": rng.choice(["auto", "relative", "absolute"])}
+        self.refkind["oq"] = "obj"
         place = {"x": [["P"], ["B"]], "y": [["P"]], "z": [["P", "C"], ["P", "Q"], ["R"]], "w": [["S"]]}
         if ["R"] in sp:
             mir["refs"][("R",)]["s"] = {"v": ["int", rng.choice(INT_VALUES), [], ""], "mode": "auto"}
@@ -154,6 +160,15 @@ class GenDyn(Gen):
                                            ["call", ["oc", "x"], [["c", rng.choice([0, 1])] for _ in self.sigs["x"]], "pos"]]))
                 else:
                     ops.append(["read", ["oc", "s"]])
+                continue
+            oq = self.mir["refs"].get(("P", "Q"), {}).get("oq") if sp == ["P", "Q"] else None
+            if oq and k < 0.4:
+                if oq["v"][0] == "ce":
+                    ops.append(["call", ["oq"], [["k", 1] if ps and rng.random() < 0.6 else ["c", rng.choice([0, 1])]
+                                                 for _ in self.sigs["x"]], "pos"])
+                else:
+                    ops.append(rng.choice([["read", ["oq", "s"]], ["read", ["oq", "p"]],
+                                           ["call", ["oq", "z"], [["c", rng.choice([0, 1])] for _ in self.sigs["z"]], "pos"]]))
                 continue
             if k < 0.35 and lower:
                 c = rng.choice(lower)
